@@ -563,6 +563,8 @@ def fit_rules(run, db):
             raise AnalysisError('%s: expected one path with one call of %s, got %d paths, fits %s' % (meth, fitname, len(rr), [f_[0] for f_ in rd.fits]))
         b = rd.fits[0][1]
         data_after = hold['o'].attrs.get('data')
+        if any(isinstance(v_, Unknown) for v_ in b.values()) or isinstance(data_after, Unknown):
+            raise AnalysisError('%s: what is handed to %s, or the data afterwards, is not followed (%s)' % (meth, fitname, {k: repr(v_) for k, v_ in b.items()}))
         if meth == 'remove_tiptilt':
             okf = same_tk(b.get('x'), Tk('X')) and same_tk(b.get('y'), Tk('Y')) and same_tk(b.get('z'), Tk('DATA'))
             okd = same_tk(data_after, Tk('Sub', Tk('DATA'), Tk('PLANE'))) and not rd.stores
